@@ -131,7 +131,7 @@ def work(shard, tier):
         keys = sorted(table)
         targets = sorted(set(table.values()))
         alphabet = keys + targets + list('0123456789ABCxyz \t\n') + C.CASE_EXPANDING + ['́', '\ud800', 'é', '٣']
-        n = 3000 if tier == 'quick' else 60000
+        n = 3000 if tier == 'quick' else 400000
         for i in range(n):
             L = rng.choice((0, 1, 2, 3, 5, 8, 13, 40))
             s = ''.join(rng.choice(alphabet) for _ in range(L))
@@ -161,7 +161,7 @@ def work(shard, tier):
         for name in shard['modules']:
             mod = mods[name]
             rng = C.rng_for('C14', name)
-            nums = C.corpus(name, limit=4 if tier == 'quick' else 25, rng=rng)
+            nums = C.corpus(name, limit=4 if tier == 'quick' else 120, rng=rng)
             if not nums:
                 continue
             h0 = hits[0]
